@@ -836,6 +836,7 @@ def smt_expr_to_str(  # noqa: C901
         z3.Z3_OP_RE_CONCAT: "re.++",
         z3.Z3_OP_STR_TO_INT: "str.to.int",
         # <- Different from standard SMT-LIB (Z3 version)
+        z3.Z3_OP_ITE: "ite",  # The declaration name is "if"
     }
 
     if z3.is_var(f):
@@ -868,7 +869,7 @@ def smt_expr_to_str(  # noqa: C901
     if z3.is_app(f):
         kind = f.decl().kind()
 
-        if kind == z3.Z3_OP_RE_LOOP:
+        if kind == z3.Z3_OP_RE_LOOP and len(f.params()) == 2:
             op = f"(_ re.loop {f.params()[0]} {f.params()[1]})"
         elif kind == z3.Z3_OP_RE_POWER:
             op = f"(_ re.^ {f.params()[0]})"
